@@ -308,6 +308,20 @@ pub fn exhaustive_frameworks(n: usize) -> Vec<GenAf> {
     v
 }
 
+/// Largest product of defender-set sizes over the arguments (what the exp encoder enumerates).
+pub fn max_defender_product(af: &AAFramework<usize>) -> usize {
+    let mut best = 0usize;
+    for a in af.argument_set().iter() {
+        let mut p = 1usize;
+        for att in af.iter_attacks_to(a) {
+            let k = af.iter_attacks_to(att.attacker()).count();
+            p = p.saturating_mul(k.max(1));
+        }
+        best = best.max(p);
+    }
+    best
+}
+
 pub fn run(rng: &mut Rng, count: usize, thorough: bool, cfg: &Cfg, out: &mut Out) {
     let max_n = if thorough { 9 } else { 7 };
     let mut produced = 0;
@@ -350,7 +364,12 @@ pub fn run(rng: &mut Rng, count: usize, thorough: bool, cfg: &Cfg, out: &mut Out
                 continue;
             }
             let encs = encoders_for(sem, q);
-            let enc_list: Vec<&str> = if all { encs.clone() } else { vec![*rng.pick(&encs)] };
+            let mut enc_list: Vec<&str> = if all { encs.clone() } else { vec![*rng.pick(&encs)] };
+            // the exp encoder is exponential in the product of the defender-set sizes (a performance
+            // matter outside the properties): keep it to products the model side replays in seconds
+            if !all && max_defender_product(&af) > 600 {
+                for e in enc_list.iter_mut() { if *e == "exp_co" { *e = "hyb_co"; } }
+            }
             let args = if *q == "SE" { vec![] } else { pick_args(rng, &af, cfg.max_args) };
             let certs: Vec<bool> = if *q == "SE" { vec![false] } else { cfg.certs.clone() };
             for enc in enc_list.iter() {
